@@ -301,10 +301,11 @@ Proof.
   - apply good_list; [| exact Hp]. apply good_list. apply good_neg. exact IH.
 Qed.
 
-Lemma parse_total : forall ts,
-  parse ts = Empty \/ (exists t, parse ts = Accepted t) \/ (exists p, p <= List.length ts /\ parse ts = Rejected p).
+Lemma parse_cst_total : forall ts,
+  parse_cst ts = Empty \/ (exists t, parse_cst ts = Accepted t) \/
+  (exists p, p <= List.length ts /\ parse_cst ts = Rejected p).
 Proof.
-  intros ts. unfold parse. destruct ts as [| t0 ts']; [left; reflexivity |].
+  intros ts. unfold parse_cst. destruct ts as [| t0 ts']; [left; reflexivity |].
   set (ts := t0 :: ts'). right.
   pose proof (good_disj ts max_depth 0 (Nat.le_0_l _)) as H.
   destruct (p_disj ts max_depth 0) as [t p | p | |]; unfold good in H; try contradiction.
@@ -313,6 +314,16 @@ Proof.
     replace (Nat.ltb (List.length ts) p) with false by (symmetry; apply Nat.ltb_ge; lia). reflexivity.
   - right. exists p. split; [lia |].
     replace (Nat.ltb (List.length ts) p) with false by (symmetry; apply Nat.ltb_ge; lia). reflexivity.
+Qed.
+
+Lemma parse_total : forall ts,
+  parse ts = Empty \/ (exists t, parse ts = Accepted t) \/ (exists p, p <= List.length ts /\ parse ts = Rejected p).
+Proof.
+  intros ts. unfold parse.
+  destruct (parse_cst_total ts) as [E | [[t E] | [p [Hp E]]]]; rewrite E.
+  - left; reflexivity.
+  - right; left; eexists; reflexivity.
+  - right; right; exists p; split; [exact Hp | reflexivity].
 Qed.
 
 Lemma parse_no_crash : forall ts, parse ts <> Crashed /\ parse ts <> OutOfFuel.
